@@ -21,7 +21,7 @@ def archetype_methods(prog):
     return [f for f in prog.fns.values() if f.path.startswith('archetype::Archetype::<R>::') and f.kind == 'AssocFn']
 
 
-@rule('P4', props=['C01', 'C02', 'C13', 'C05', 'C03', 'C06'], floor=2)
+@rule('P4', props=['C01', 'C02', 'C13', 'C05', 'C03', 'C06', 'C04'], floor=2)
 def p4_swap_remove_fixup(prog):
     """Wherever the archetype's identifier column is swap_removed at `index`, the entity that the swap moves into
     `index` gets its location index updated — exactly when there is one: for row counts L and indices i < L the
@@ -618,6 +618,37 @@ def p10_row_identifier_correspondence(prog):
             if not (pathsem.is_field_of(S(l_id), 'Locations', lnames.index('identifier')) and pathsem.mentions(l_id, lambda w: w == me)) or S(l_ix) != payload or len(nxt) != 1:
                 ok = False
         ok = ok and n_some > 0
+        # Locations::len / is_empty speak about what is LEFT (allocate_batch sizes the fresh part with them after the
+        # reuse loop has taken some): len == indices.end - indices.start of the live range, is_empty == that range's
+        for g in prog.fns.values():
+            if not (g.path.startswith('entity::allocator::locations::Locations::<R>::') and g.name in ('len', 'is_empty') and g.kind == 'AssocFn'):
+                continue
+            r.inst('Locations::%s' % g.name)
+            Eg = pathsem.analyse(prog, g)
+            gr = [p for p in Eg.paths if p.ended == 'return']
+            gme = ('p', 1, g.body.local_name(1) or '')
+            ii = lnames.index('indices') if 'indices' in lnames else None
+
+            def of_range(t, k):
+                # field k (0 = start, 1 = end) of self.indices
+                t = S(t)
+                return isinstance(t, tuple) and t[0] == 'f' and t[2] == k and pathsem.is_field_of(t[1], 'Locations', ii) and pathsem.mentions(t, lambda w: w == gme)
+            badg = Eg.truncated or not gr or ii is None
+            for p in gr:
+                if g.name == 'len':
+                    L = pathsem.lin(p.ret)
+                    pos = [t for t, c in L.terms.items() if c == 1]
+                    neg = [t for t, c in L.terms.items() if c == -1]
+                    if not (L.const == 0 and len(L.terms) == 2 and len(pos) == 1 and len(neg) == 1 and of_range(pos[0], 1) and of_range(neg[0], 0)):
+                        # or delegated to the range itself
+                        if not (isinstance(p.ret, tuple) and p.ret[0] == 'call' and p.ret[1].rsplit('::', 1)[-1] == 'len' and pathsem.mentions(p.ret, lambda t: pathsem.is_field_of(t, 'Locations', ii))):
+                            badg = True
+                else:
+                    tests = [a_ for a_, v in p.conds if pathsem.mentions(a_, lambda t: pathsem.is_field_of(t, 'Locations', ii))]
+                    if not tests and not pathsem.mentions(p.ret, lambda t: pathsem.is_field_of(t, 'Locations', ii)):
+                        badg = True
+            if badg:
+                r.viol('P10', 'Locations::%s/not-remaining' % g.name, g.loc(), 'Locations::%s must describe the locations still to be yielded (the live `indices` range): allocate_batch sizes the fresh slots with it after reusing free ones' % g.name)
         if not ok or not rng:
             r.viol('P10', 'Locations::next/shape', f.loc(), 'Locations::next must yield Location{identifier: self.identifier, index: next index of the range}')
     return r
